@@ -402,7 +402,7 @@ impl Scenario for C18 {
         "exploration"
     }
     fn rule(&self) -> String {
-        "Operation histories over one shared CurveBuffers, a pool of control-point lists (empty, single point, linear, Bezier 2..10 points, perfect curves incl. collinear, Catmull, multi-segment, B-spline with degree, large Bezier that over-grows the buffers, duplicates, randomly typed points) and four slider slots: ops {compute owned, compute borrowed (read or dropped unread), SliderPath::curve / curve_with_bufs / borrowed_curve, HitObjectSlider::duration_with_bufs, HitObject::end_time_with_bufs, push/pop/move/retype a control point through control_points_mut, change the length through expected_dist_mut, clear_curve, clone / clone_from between slots}; a quarter of the operations are followed by a scripted triple (fill the cache, mutate through an accessor, read through a cached API). (1) every sequence up to length 3 (quick) / 4 (thorough) over {owned, borrowed} x 6 fixed lists x {no length, 50} — enumerated; (2) seeded histories of length <= 24; (3) decoded-map: bundled / generated maps (with extra sliders of mixed sizes) decoded by the real decoder, whose post-processing shares one CurveBuffers across all sliders and caches each curve — every cached curve, borrowed_curve and BorrowedCurve::new on shared user buffers must equal fresh buffers, before and after the encoder has recomputed them with its own shared buffers. After every computing op: bit-identical to Curve::new on fresh buffers for the current (mode, points, length). Also: related lists (translated / mirrored / scaled), counter-wrap churn, lookup histories on warm vs cold curves, decoded maps edited through public fields and encoded with caches kept. Round 8: thread hand-offs (operations on freshly spawned, joined threads). Round 10: whole Debug rendering of small curves vs fresh buffers; API-only control-point shapes in decoded maps; buffer clones. Round 11: twin lists differing only in the sign of zero coordinates. distinct_nontrivial = distinct plan hashes with >= 2 operations.".into()
+        "Operation histories over one shared CurveBuffers, a pool of control-point lists (empty, single point, linear, Bezier 2..10 points, perfect curves incl. collinear, Catmull, multi-segment, B-spline with degree, large Bezier that over-grows the buffers, duplicates, randomly typed points) and four slider slots: ops {compute owned, compute borrowed (read or dropped unread), SliderPath::curve / curve_with_bufs / borrowed_curve, HitObjectSlider::duration_with_bufs, HitObject::end_time_with_bufs, push/pop/move/retype a control point through control_points_mut, change the length through expected_dist_mut, clear_curve, clone / clone_from between slots}; a quarter of the operations are followed by a scripted triple (fill the cache, mutate through an accessor, read through a cached API). (1) every sequence up to length 3 (quick) / 4 (thorough) over {owned, borrowed} x 6 fixed lists x {no length, 50} — enumerated; (2) seeded histories of length <= 24; (3) decoded-map: bundled / generated maps (with extra sliders of mixed sizes) decoded by the real decoder, whose post-processing shares one CurveBuffers across all sliders and caches each curve — every cached curve, borrowed_curve and BorrowedCurve::new on shared user buffers must equal fresh buffers, before and after the encoder has recomputed them with its own shared buffers. After every computing op: bit-identical to Curve::new on fresh buffers for the current (mode, points, length). Also: related lists (translated / mirrored / scaled), counter-wrap churn, lookup histories on warm vs cold curves, decoded maps edited through public fields and encoded with caches kept. Round 8: thread hand-offs (operations on freshly spawned, joined threads). Round 10: whole Debug rendering of small curves vs fresh buffers; API-only control-point shapes in decoded maps; buffer clones. Round 11: twin lists differing only in the sign of zero coordinates. Round 13: buffer-less API from a thread-local destructor during thread teardown. distinct_nontrivial = distinct plan hashes with >= 2 operations.".into()
     }
     fn assumptions(&self) -> Vec<String> {
         vec![
